@@ -86,9 +86,12 @@ pub struct Printer {
     pub empty_untils: Vec<(u32, u32)>,
     /// closure nesting depth of every use, parallel to `uses`
     pub use_depth: Vec<u32>,
+    /// ordinal (among all name tokens: declarations and uses, in source order) of every use, parallel to `uses`
+    pub use_ord: Vec<usize>,
     env: Vec<(u32, u32)>,
     depth: u32,
     group: u32,
+    ntok: usize,
 }
 
 #[derive(Clone, Copy, Debug, PartialEq)]
@@ -108,6 +111,8 @@ pub struct DeclInfo {
     pub kind: DeclKind,
     /// declarations of one statement / one parameter list share a group
     pub group: u32,
+    /// ordinal among all name tokens (usize::MAX for the implicit self, which has no token)
+    pub ord: usize,
 }
 
 impl Printer {
@@ -119,9 +124,11 @@ impl Printer {
             headers: Vec::new(),
             empty_untils: Vec::new(),
             use_depth: Vec::new(),
+            use_ord: Vec::new(),
             env: Vec::new(),
             depth: 0,
             group: 0,
+            ntok: 0,
         }
     }
     fn pos(&self) -> u32 {
@@ -138,12 +145,15 @@ impl Printer {
         let r = self.lookup(n);
         self.uses.push((p, n, r));
         self.use_depth.push(self.depth);
+        self.use_ord.push(self.ntok);
+        self.ntok += 1;
         self.s(&name_text(n));
     }
     /// prints a declaration token; returns its position (the caller decides when it becomes visible)
     fn decl_name(&mut self, n: u32, kind: DeclKind) -> u32 {
         let p = self.pos();
-        self.decls.push(DeclInfo { pos: p, name: n, kind, group: self.group });
+        self.decls.push(DeclInfo { pos: p, name: n, kind, group: self.group, ord: self.ntok });
+        self.ntok += 1;
         self.s(&name_text(n));
         p
     }
@@ -280,7 +290,7 @@ impl Printer {
                 if let Some(m) = fname.meth {
                     implicit = Some(self.pos());
                     self.group += 1;
-                    self.decls.push(DeclInfo { pos: self.pos(), name: SELF, kind: DeclKind::SelfParam, group: self.group });
+                    self.decls.push(DeclInfo { pos: self.pos(), name: SELF, kind: DeclKind::SelfParam, group: self.group, ord: usize::MAX });
                     self.s(":");
                     self.s(&name_text(m));
                 }
@@ -377,6 +387,108 @@ impl Printer {
         p.block_items(b);
         p
     }
+}
+
+// ------------------------------------------------------------------------------------------------ renaming by token ordinal
+
+/// applies `f` to every name token (declaration or use; not fields / method names) in the printer's order
+pub fn map_names_expr(e: &Expr, f: &mut dyn FnMut(u32) -> u32) -> Expr {
+    match e {
+        Expr::Num(n) => Expr::Num(*n),
+        Expr::Name(n) => Expr::Name(f(*n)),
+        Expr::Idx(a, fld) => Expr::Idx(Box::new(map_names_expr(a, f)), *fld),
+        Expr::Call(c, args) => {
+            let c2 = map_names_expr(c, f);
+            Expr::Call(Box::new(c2), args.iter().map(|a| map_names_expr(a, f)).collect())
+        }
+        Expr::Bin(a, b) => {
+            let a2 = map_names_expr(a, f);
+            Expr::Bin(Box::new(a2), Box::new(map_names_expr(b, f)))
+        }
+        Expr::Fun(ps, b) => {
+            let ps2: Vec<u32> = ps.iter().map(|p| f(*p)).collect();
+            Expr::Fun(ps2, map_names_block(b, f))
+        }
+    }
+}
+fn map_names_exprs(es: &[Expr], f: &mut dyn FnMut(u32) -> u32) -> Vec<Expr> {
+    es.iter().map(|e| map_names_expr(e, f)).collect()
+}
+pub fn map_names_stat(s: &Stat, f: &mut dyn FnMut(u32) -> u32) -> Stat {
+    match s {
+        Stat::Local(ns, es) => {
+            let ns2: Vec<u32> = ns.iter().map(|n| f(*n)).collect();
+            Stat::Local(ns2, map_names_exprs(es, f))
+        }
+        Stat::Assign(vs, es) => {
+            let vs2 = map_names_exprs(vs, f);
+            Stat::Assign(vs2, map_names_exprs(es, f))
+        }
+        Stat::Call(c, args) => {
+            let c2 = map_names_expr(c, f);
+            Stat::Call(c2, map_names_exprs(args, f))
+        }
+        Stat::LocalFun(n, ps, b) => {
+            let n2 = f(*n);
+            let ps2: Vec<u32> = ps.iter().map(|p| f(*p)).collect();
+            Stat::LocalFun(n2, ps2, map_names_block(b, f))
+        }
+        Stat::Fun(fname, ps, b) => {
+            let root = f(fname.root);
+            let ps2: Vec<u32> = ps.iter().map(|p| f(*p)).collect();
+            Stat::Fun(FuncName { root, fields: fname.fields.clone(), meth: fname.meth }, ps2, map_names_block(b, f))
+        }
+        Stat::Do(b) => Stat::Do(map_names_block(b, f)),
+        Stat::While(c, b) => {
+            let c2 = map_names_expr(c, f);
+            Stat::While(c2, map_names_block(b, f))
+        }
+        Stat::Repeat(b, c) => {
+            let b2 = map_names_block(b, f);
+            Stat::Repeat(b2, map_names_expr(c, f))
+        }
+        Stat::If(c, b, els) => {
+            let c2 = map_names_expr(c, f);
+            let b2 = map_names_block(b, f);
+            Stat::If(c2, b2, map_names_elifs(els, f))
+        }
+        Stat::For(x, es, b) => {
+            let x2 = f(*x);
+            let es2 = map_names_exprs(es, f);
+            Stat::For(x2, es2, map_names_block(b, f))
+        }
+        Stat::ForIn(ns, es, b) => {
+            let ns2: Vec<u32> = ns.iter().map(|n| f(*n)).collect();
+            let es2 = map_names_exprs(es, f);
+            Stat::ForIn(ns2, es2, map_names_block(b, f))
+        }
+    }
+}
+fn map_names_elifs(e: &Elifs, f: &mut dyn FnMut(u32) -> u32) -> Elifs {
+    match e {
+        Elifs::End => Elifs::End,
+        Elifs::Else(b) => Elifs::Else(map_names_block(b, f)),
+        Elifs::ElseIf(c, b, r) => {
+            let c2 = map_names_expr(c, f);
+            let b2 = map_names_block(b, f);
+            Elifs::ElseIf(c2, b2, Box::new(map_names_elifs(r, f)))
+        }
+    }
+}
+pub fn map_names_block(b: &Block, f: &mut dyn FnMut(u32) -> u32) -> Block {
+    let stats = b.stats.iter().map(|s| map_names_stat(s, f)).collect();
+    let ret = b.ret.as_ref().map(|es| map_names_exprs(es, f));
+    Block { stats, ret }
+}
+
+/// the program with the name tokens whose ordinal is in `ords` replaced by `new`
+pub fn rename_tokens(b: &Block, ords: &std::collections::HashSet<usize>, new: u32) -> Block {
+    let mut k = 0usize;
+    map_names_block(b, &mut |n| {
+        let r = if ords.contains(&k) { new } else { n };
+        k += 1;
+        r
+    })
 }
 
 // ------------------------------------------------------------------------------------------------ generator
